@@ -201,7 +201,16 @@ func (g *gen) search(full bool) *Search {
 	return s
 }
 
+// agg draws an aggregation; one in four is a time series with its own interval.
 func (g *gen) agg() simenv.AggReq {
+	a := g.agg0()
+	if a.Func != "unique" && g.r.Bool(0.25) {
+		a.Interval = []int64{1000, 60000, 7, 3600000}[g.r.Intn(4)]
+	}
+	return a
+}
+
+func (g *gen) agg0() simenv.AggReq {
 	if g.bigNums && g.r.Bool(0.4) {
 		// only order statistics: sums of such magnitudes depend on the order of floating-point additions
 		a := simenv.AggReq{Func: []string{"min", "max", "quantile"}[g.r.Intn(3)], Field: "big", GroupBy: []string{"svc", ""}[g.r.Intn(2)]}
